@@ -157,6 +157,39 @@ def rules(rep, db, only):
                 rep.broken("C13 BOXARITH %s: %s" % (key, e))
                 continue
             (rep.fail("BOXARITH", key, F.primary_site(fn), F.describe(fn), bad) if bad else rep.ok("BOXARITH", key, F.primary_site(fn), F.describe(fn)))
+    # center(box) = min + (max - min) / 2, component by component, the truncated division being an opaque atom of its operands:
+    # (min + max) / 2 is a different atom (and a different value for a negative odd sum)
+    seen = set()
+    for fn in db.fns("fcppt::math::box::center"):
+        ta = tuple(fn.get("targs") or [])
+        if ta in seen or ta[0] not in ("int", "unsigned int", "long"):
+            continue
+        seen.add(ta)
+        N = int(str(ta[1]).rstrip("U"))
+        key = "center|%s|N=%d" % (ta[0], N)
+        b = fn["params"][0]["name"]
+        bad = None
+        try:
+            ps = sx.Interp(db, cfg).paths(fn, limit=50)
+            if len(ps) != 1 or ps[0].outcome[0] != "return":
+                raise Broken("%d paths" % len(ps))
+            res = P.Resolver(lambda r, k: Poly.atom((r, k)), lambda n: Poly.atom((n,)), ps[0].events)
+            res.opaque_division = True
+            got = [res.poly(e) for e in P.storage_list(ps[0].outcome[1])]
+            if len(got) != N:
+                raise Broken("%d components" % len(got))
+            for j in range(N):
+                lo, hi = Poly.atom((b + ".min_", j)), Poly.atom((b + ".max_", j))
+                want = lo + Poly.atom(("div", hi - lo, Poly.const(2)))
+                if got[j] != want:
+                    def atom_name(a):
+                        return ("%s(%s, %s)" % (a[0], a[1].show(atom_name), a[2].show(atom_name))) if a[0] in ("div", "mod") else "%s[%s]" % (a[0], ",".join(str(x) for x in a[1:]))
+                    bad = "coordinate %d of the center is %s, expected %s (half the extent added to the lower corner)" % (j, got[j].show(atom_name), want.show(atom_name))
+                    break
+        except (Broken, sx.Unsupported, P.Unresolved) as e:
+            rep.broken("C13 BOXARITH %s: %s" % (key, e))
+            continue
+        (rep.fail("BOXARITH", key, F.primary_site(fn), F.describe(fn), bad) if bad else rep.ok("BOXARITH", key, F.primary_site(fn), F.describe(fn)))
     seen = set()
     for fn in db.fns("fcppt::math::box::corner_points"):
         ta = tuple(fn.get("targs") or [])
